@@ -520,7 +520,14 @@ def execute(scenario, tape):
         if name in ('reactor', 'socket', 'file_object') and \
                 not w.sim.aborting:
             w.sim.log('attr-write', name)
-    w.extra = [(_C, '__setattr__', logging_setattr)]
+    from minecraft.networking.connection import _ConnectionOptions as _O
+
+    def logging_setattr_opt(self, name, value):
+        object.__setattr__(self, name, value)
+        if name.startswith('compression') and not w.sim.aborting:
+            w.sim.log('attr-write', 'options.' + name)
+    w.extra = [(_C, '__setattr__', logging_setattr),
+               (_O, '__setattr__', logging_setattr_opt)]
     w.run(build)
     res = common.result_from_world(w)
     check(scenario, w, st, res)
